@@ -298,7 +298,7 @@ def inline_locals(fn: T.Any) -> T.Any:
                     tgt, val = st.targets[0].id, st.value
                 elif isinstance(st, ast.AnnAssign) and isinstance(st.target, ast.Name) and st.value is not None:
                     tgt, val = st.target.id, st.value
-                const_table = isinstance(val, ast.Tuple) and bool(val.elts) and all(isinstance(r, ast.Tuple) and r.elts for r in val.elts)
+                const_table = isinstance(val, ast.Tuple) and bool(val.elts) and not any(isinstance(r, ast.Starred) for r in val.elts)   # immutable record / key
                 if tgt is not None and val is not None and stores.get(tgt) == 1 and _pure(val) and (const_table or not isinstance(val, (ast.List, ast.Set, ast.Dict, ast.Tuple, ast.Constant))) \
                         and not (isinstance(val, ast.Call) and not val.args and not val.keywords):
                     rest = stmts[i + 1:]
@@ -316,7 +316,7 @@ def inline_locals(fn: T.Any) -> T.Any:
                                     ok = False
                                 if isinstance(n, (ast.Attribute, ast.Subscript)) and isinstance(n.ctx, (ast.Store, ast.Del)):
                                     c = attr_chain(n.value if isinstance(n, ast.Subscript) else n)
-                                    if c and any(c == k or k.startswith(c + '.') or c.startswith(k + '.') for k in chains):
+                                    if c and any(c == k or k.startswith(c + '.') for k in chains):
                                         ok = False
                                 if isinstance(n, ast.Call) and isinstance(n.func, ast.Attribute) and n.func.attr not in PURE_METHODS:
                                     c = attr_chain(n.func.value)
@@ -403,6 +403,33 @@ class _Expr(ast.NodeTransformer):
         if len(e.ops) != 1:
             return e
         op, l, r = e.ops[0], e.left, e.comparators[0]
+        # membership in a concatenation is membership in one of its parts: x in chain(A, B) / x in A + B / x in (*A, *B)
+        if isinstance(op, (ast.In, ast.NotIn)):
+            def parts_of(c: ast.AST) -> T.Optional[T.List[ast.expr]]:
+                if isinstance(c, ast.Call) and attr_chain(c.func) in ('itertools.chain', 'chain') and c.args and not c.keywords \
+                        and not any(isinstance(x, ast.Starred) for x in c.args):
+                    out_: T.List[ast.expr] = []
+                    for x in c.args:
+                        sub = parts_of(x)
+                        out_ += sub if sub is not None else [x]
+                    return out_
+                if isinstance(c, ast.BinOp) and isinstance(c.op, ast.Add):
+                    lp, rp = parts_of(c.left), parts_of(c.right)
+                    lp = lp if lp is not None else ([c.left] if attr_chain(c.left) else None)  # type: ignore[list-item]
+                    rp = rp if rp is not None else ([c.right] if attr_chain(c.right) else None)  # type: ignore[list-item]
+                    return lp + rp if lp is not None and rp is not None else None
+                if isinstance(c, (ast.Tuple, ast.List)) and c.elts and all(isinstance(x, ast.Starred) and attr_chain(x.value) for x in c.elts):
+                    return [x.value for x in c.elts]  # type: ignore[attr-defined]
+                if isinstance(c, ast.Call) and attr_chain(c.func) in ('list', 'tuple') and len(c.args) == 1 and not c.keywords:
+                    return parts_of(c.args[0])
+                return None
+            ps = parts_of(r)
+            if ps is not None and len(ps) >= 2 and all(attr_chain(x) for x in ps) and (attr_chain(l) or isinstance(l, ast.Constant)):
+                tests: T.List[ast.expr] = [ast.Compare(left=copy.deepcopy(l), ops=[ast.In()], comparators=[x]) for x in ps]
+                res2: ast.expr = ast.BoolOp(op=ast.Or(), values=tests)
+                if isinstance(op, ast.NotIn):
+                    res2 = ast.UnaryOp(op=ast.Not(), operand=res2)
+                return ast.copy_location(res2, e)
         # a regex match object is truthy exactly when it is not None
         if isinstance(op, (ast.Is, ast.IsNot, ast.Eq, ast.NotEq)) and isinstance(r, ast.Constant) and r.value is None and isinstance(l, ast.Call) \
                 and isinstance(l.func, ast.Attribute) and l.func.attr in ('search', 'match', 'fullmatch'):
